@@ -406,6 +406,63 @@ def _exec_cli(case, ctx, mon):
         raise Violation("C10/debug-disagrees/cli", where)
     ctx.nontrivial = len(F) > 0
     ctx.probe("cli formula scanned")
+    _cli_documented_counts(case, ctx, F, where)
+
+
+# documented variable count of '-T <name> <args>' applied to N variables
+_CLI_T_COUNT = {
+    "none": lambda N, a: N, "flip": lambda N, a: N,
+    "shuffle": lambda N, a: N, "ite": lambda N, a: 3 * N,
+    "or": lambda N, a: N * a[0], "xor": lambda N, a: N * a[0],
+    "and": lambda N, a: N * a[0],
+    "eq": lambda N, a: N * a[0], "neq": lambda N, a: N * a[0],
+    "maj": lambda N, a: N * a[0], "one": lambda N, a: N * a[0],
+    "lift": lambda N, a: 2 * a[0] * N,
+    "atleast": lambda N, a: N * a[0], "atmost": lambda N, a: N * a[0],
+    "exact": lambda N, a: N * a[0], "anybut": lambda N, a: N * a[0],
+    "xorcomp": lambda N, a: a[0], "majcomp": lambda N, a: a[0],
+}
+
+
+def _cli_documented_counts(case, ctx, F, where):
+    """The tool applies '-T' steps one after the other: every prefix of
+    the command line is itself a command line (same --seed, hence the same
+    base formula), and each step must turn N variables into the documented
+    number."""
+    argv = list(case["argv"])
+    cuts = [i for i, a in enumerate(argv) if a == "-T"]
+    if not cuts or case["cli"] != "cnfgen":
+        return
+    import cnfgen.clitools.msg as climsg
+    counts = []
+    for cut in cuts:
+        with installed(SimRandom(case["prng_seed"])):
+            r = call(_CLI["cnfgen"], argv[:cut], mode="formula")
+        climsg._prefix = ""
+        if r[0] == "exc":
+            ctx.note("a prefix of the command line is refused")
+            return
+        counts.append(r[1].number_of_variables())
+    counts.append(F.number_of_variables())
+    for j, cut in enumerate(cuts):
+        end = cuts[j + 1] if j + 1 < len(cuts) else len(argv)
+        tname, targs = argv[cut + 1], argv[cut + 2:end]
+        fn = _CLI_T_COUNT.get(tname)
+        nums = [int(a) for a in targs if a.lstrip("-").isdigit()]
+        if fn is None or (tname not in ("none", "flip", "shuffle", "ite")
+                          and not nums):
+            ctx.note("no documented count for -T %s %r" % (tname, targs))
+            continue
+        want = fn(counts[j], nums)
+        if counts[j + 1] != want:
+            raise Violation(
+                "C10/documented-count/cli-transformation:%s" % tname,
+                "%s\n'-T %s %s' turned %d variables into %d, documented %d"
+                % (where, tname, " ".join(targs), counts[j], counts[j + 1],
+                   want))
+        ctx.probe("cli transformation count checked")
+        if len(r[1]) == 0:
+            ctx.probe("cli transformation of a formula without clauses")
 
 
 def _raise_monitor(mon, where):
